@@ -716,8 +716,108 @@ def _check_roundtrip(prog: Program, res: Result, sec_tabs):
             if not ok:
                 res.violation("K5", f"pipe:{mem}|{key}|{got.key()[:80]}", prog.loc(wfi, val), WRITER,
                               f"round trip of '{key}' [{mem}]: written from {a_old}, read back through {setter}({p}) it becomes {got.key()[:160]}")
+    # keys the manager adds from the simulation parameters (max/min height, max/min eft, cap, continue flag)
+    spq = "ghedesigner.simulation.SimulationParameters"
+    _, sp_attrs = _ctor_env(prog, spq)
+    m, sp_args = setter_ctor_args("set_simulation_parameters", "SimulationParameters")
+    lb = loader_binding("set_simulation_parameters")
+    ks = KeyStoreCollector()
+    ks.visit(wfi.node)
+    sec_of_dict = {}
+    for sec_name, vnode in dict_keys(next(v for v in ks.inits.values() if isinstance(v, ast.Dict) and any(isinstance(k, ast.Constant) and k.value == "version" for k in v.keys))).items():
+        if isinstance(vnode, ast.Name):
+            sec_of_dict[vnode.id] = sec_name
+    props_var = {}
+    for n in ast.walk(lfi.node):
+        if isinstance(n, ast.Assign) and len(n.targets) == 1 and isinstance(n.targets[0], ast.Name) and isinstance(n.value, ast.Subscript) \
+                and isinstance(n.value.value, ast.Name) and n.value.value.id == "inputs" and isinstance(n.value.slice, ast.Constant):
+            props_var[n.targets[0].id] = n.value.slice.value
+    n_mgr = 0
+    for dname, key, val, guards, node in ks.stores:
+        src = attr_chain(val) if isinstance(val, ast.Attribute) else None
+        if not src or not src.startswith("self._simulation_parameters."):
+            continue
+        sec = sec_of_dict.get(dname)
+        attr = "self." + src.split(".")[-1]
+        params = [p for p, (var, k) in lb.items() if k == key and props_var.get(var) == sec]
+        n_mgr += 1
+        n_rt += 1
+        if len(params) != 1:
+            res.ob("K5", f"[{sec}] manager key '{key}' is fed to exactly one parameter of set_simulation_parameters", False, prog.loc(wfi, node))
+            res.violation("K5", f"{sec}|{key}|loader-binding|{params}", prog.loc(lfi, lfi.node), WORKER,
+                          f"[{sec}] '{key}' (written from {src}) is read back into {params or 'no parameter'} of set_simulation_parameters from section '{sec}'")
+            continue
+        p = params[0]
+        expr = sp_attrs.get(attr)
+        if expr is None:
+            continue
+        got = expr.subs({f"P:{cp}": cv for cp, cv in sp_args.items() if isinstance(cv, Rat)})
+        ok = got.equals(Rat.atom(f"K:{p}"))
+        res.ob("K5", f"[{sec}] '{key}' <- {src} returns through set_simulation_parameters({p}) to SimulationParameters.{attr[5:]} (got {got.key()[:50]})", ok, prog.loc(wfi, node))
+        if not ok:
+            res.violation("K5", f"{sec}|{key}|{got.key()[:60]}", prog.loc(wfi, node), WRITER,
+                          f"round trip of '{key}': written from {src}, but reading the file back puts {got.key()[:80]} into that attribute "
+                          f"(key / parameter / constructor argument mix-up)")
+    res.count("manager_added_keys", n_mgr)
+    res.floor("manager_added_keys", 6)
+    # fluid and design sections
+    for sec, cls_q, setter, cname in (("fluid", "ghedesigner.media.GHEFluid", "set_fluid", "GHEFluid"),):
+        tab, _sn = sec_tabs[(sec, "")]
+        m = mgr.methods[setter]
+        calls = [n for n in ast.walk(m.node) if isinstance(n, ast.Call) and attr_chain(n.func) == cname]
+        init = prog.method(cls_q, "__init__")
+        if len(calls) != 1:
+            raise AnalysisError(f"{m.qualname}: constructor call {cname}(...) not found")
+        b = bind_args(init, calls[0])
+        ti = prog.method(cls_q, "to_input")
+        stored = {}
+        for n in ast.walk(init.node):
+            if isinstance(n, ast.Assign) and len(n.targets) == 1 and attr_chain(n.targets[0]) and isinstance(n.value, ast.Name):
+                stored[attr_chain(n.targets[0])] = n.value.id
+        for key, (val, cond, f) in sorted(tab.items()):
+            src = attr_chain(val) if isinstance(val, ast.Attribute) else None
+            if key == "fluid_name":
+                okf = src == "self.fluid_type.name" and "fluid_str" in b and ast.unparse(b["fluid_str"]) == "fluid_name"
+                n_rt += 1
+                res.ob("K5", "[fluid] 'fluid_name' is the name of the FluidType member selected from the fluid_name argument", okf, prog.loc(ti, val))
+                if not okf:
+                    res.violation("K5", f"fluid|fluid_name|{src}", prog.loc(ti, val), ti.qualname, f"'fluid_name' is written from {src} and read back into {ast.unparse(b.get('fluid_str')) if 'fluid_str' in b else '?'}")
+                continue
+            cparam = stored.get(src)
+            sparam = ast.unparse(b[cparam]) if cparam in b else None
+            n_rt += 1
+            ok = sparam == key
+            res.ob("K5", f"[fluid] '{key}' <- {src} returns through set_fluid({sparam}) -> GHEFluid({cparam})", ok, prog.loc(ti, val))
+            if not ok:
+                res.violation("K5", f"fluid|{key}|{sparam}", prog.loc(ti, val), ti.qualname, f"round trip of '{key}': written from {src} (constructor parameter {cparam}), which set_fluid fills from '{sparam}'")
+    dti = prog.method("ghedesigner.design.DesignBase", "to_input")
+    dtab = {k: v for k, (v, c) in to_input_table(dti).items()}
+    dinit = prog.method("ghedesigner.design.DesignBase", "__init__")
+    stored = {attr_chain(n.targets[0]): n.value.id for n in ast.walk(dinit.node) if isinstance(n, ast.Assign) and len(n.targets) == 1 and attr_chain(n.targets[0]) and isinstance(n.value, ast.Name)}
+    sd = mgr.methods["set_design"]
+    lbd = loader_binding("set_design")
+    for key, val in sorted(dtab.items()):
+        src = attr_chain(val)
+        base = src[:-5] if src and src.endswith(".name") else src
+        cparam = stored.get(base)
+        n_rt += 1
+        # every Design*(...) call in set_design passes flow_rate positionally first and flow_type=flow_type
+        okc = True
+        for c in [n for n in ast.walk(sd.node) if isinstance(n, ast.Call) and (attr_chain(n.func) or "").startswith("Design")]:
+            r = prog.resolve_name(sd.module, attr_chain(c.func))
+            if not (r and r[0] == "class"):
+                continue
+            bi = bind_args(prog.method(r[1].qualname, "__init__"), c)
+            want = {"v_flow": "flow_rate", "flow_type": "flow_type"}.get(cparam)
+            if want is None or ast.unparse(bi.get(cparam)) != want:
+                okc = False
+        sparam = {"v_flow": "flow_rate", "flow_type": "flow_type_str"}.get(cparam)
+        okl = sparam in lbd and lbd[sparam][1] == key
+        res.ob("K5", f"[design] '{key}' <- {src} returns through set_design({sparam}) -> Design*({cparam})", okc and okl, prog.loc(dti, val))
+        if not (okc and okl):
+            res.violation("K5", f"design|{key}|{cparam}", prog.loc(dti, val), dti.qualname, f"round trip of '{key}': written from {src}; the loader feeds set_design({sparam}) from {lbd.get(sparam)}, constructors receive {cparam} wrongly" )
     res.count("roundtrip_keys", n_rt)
-    res.floor("roundtrip_keys", 50)
+    res.floor("roundtrip_keys", 60)
 
 
 # ---------------------------------------------------------------------------
@@ -840,6 +940,12 @@ VARIANTS = [
     Variant("rowwise perimeter ratio written unconditionally again (repaired defect F10 returns)", "break",
             [(GEO, "        d = {\n            'min_spacing': self.min_spacing,", "        d = {\n            'perimeter_spacing_ratio': self.perimeter_spacing_ratio,\n            'min_spacing': self.min_spacing,"),
              (GEO, "        if self.perimeter_spacing_ratio is not None:\n            d['perimeter_spacing_ratio'] = self.perimeter_spacing_ratio\n", "")], "K"),
+    Variant("loader feeds max_eft from the min_eft key", "break",
+            [(MGR, "        max_eft=design_props[\"max_eft\"],\n        min_eft=design_props[\"min_eft\"],", "        max_eft=design_props[\"min_eft\"],\n        min_eft=design_props[\"max_eft\"],")], "K5"),
+    Variant("writer emits min_height from max_height", "break", [(MGR, "        d_geo['min_height'] = self._simulation_parameters.min_height", "        d_geo['min_height'] = self._simulation_parameters.max_height")], "K5"),
+    Variant("set_simulation_parameters swaps the height bounds into the constructor", "break",
+            [(MGR, "            1, num_months, max_eft, min_eft, max_height, min_height, max_boreholes, continue_if_design_unmet", "            1, num_months, max_eft, min_eft, min_height, max_height, max_boreholes, continue_if_design_unmet")], "K5"),
+    Variant("fluid temperature written from the concentration", "break", [("ghedesigner.media", "            'temperature': self.temperature,", "            'temperature': self.concentration_percent,")], "K5"),
     Variant("key order of a to_input dict changed", "benign",
             [(GEO, "        return {'length': self.length, 'b': self.b, 'method': DesignGeomType.NEARSQUARE.name}", "        return {'method': DesignGeomType.NEARSQUARE.name, 'b': self.b, 'length': self.length}")]),
     Variant("diameter written as 2 * r instead of r * 2.0", "benign", [("ghedesigner.borehole", "'diameter': self.r_b * 2.0}", "'diameter': 2 * self.r_b}")]),
